@@ -319,11 +319,34 @@ func mutate(r *rand.Rand, b []byte) []byte {
 		if b[i] < 0x80 {
 			b = append(b[:i], append([]byte{b[i] | 0x80, 0}, b[i+1:]...)...)
 		}
+	case 7: // a length-delimited field announcing a boundary length, in front
+		f := protowire.AppendVarint([]byte{byte(1+r.IntN(15))<<3 | 2}, boundaryLengths[r.IntN(len(boundaryLengths))])
+		b = append(f, b...)
 	}
 	return b
 }
 
+// boundaryLengths: declared lengths of a length-delimited value around every width a careless bounds check can have
+// (int32, uint32, int64 sign bit, uint64), each as a shortest varint and followed by 0..3 body bytes.
+var boundaryLengths = []uint64{1<<31 - 1, 1 << 31, 1<<32 - 1, 1 << 32, 1<<62 + 1, 1<<63 - 1, 1 << 63, 1<<63 + 1, 1<<64 - 1, 1<<64 - 9}
+
+// lengthSweep is emitted at the start of every generated run, whatever the seed: every boundary length through every
+// entry point that consumes a length-delimited value (bare, as a field value, as a whole field, inside a group).
+func lengthSweep(emit func(core.Case)) {
+	for _, l := range boundaryLengths {
+		lv := protowire.AppendVarint(nil, l)
+		for body := 0; body <= 3; body += 3 {
+			v := append(append([]byte{}, lv...), make([]byte, body)...)
+			emit(core.Case{"op": "cbytes", "b": core.B(v)})
+			emit(core.Case{"op": "cvalue", "num": 1, "wt": 2, "b": core.B(v)})
+			emit(core.Case{"op": "cfield", "b": core.B(append([]byte{0x0a}, v...))})
+			emit(core.Case{"op": "cgroup", "num": 1, "b": core.B(append(append([]byte{0x12}, v...), 0x0c))})
+		}
+	}
+}
+
 func wireGen(r *rand.Rand, n int, emit func(core.Case)) {
+	lengthSweep(emit)
 	for i := 0; i < n; i++ {
 		switch r.IntN(16) {
 		case 0, 1:
